@@ -170,6 +170,12 @@ theorem code_watch_check :
       ["if !w.armed", "return 0, false", "if w.salt.Equal(current)", "return w.resumeFrameIdx, false",
        "w.Disarm()", "return 0, true"] := rfl
 
+/-- the connection that writes keeps autocheckpoint off for good: the PRAGMA is issued on the
+read-write pool, which holds ONE connection and never retires it (no idle limit, no lifetime) -/
+theorem code_writer_connection_never_recycled :
+    RqModel.Gen.WalCkpt.rwPoolSettings = rwPoolSettings ∧
+    RqModel.Gen.WalCkpt.autocheckpointOff = autocheckpointOff := by decide
+
 theorem code_reset_flag_on_every_outcome : RqModel.Gen.WalCkpt.walResetSites = resetSites := by decide
 
 /-- the ORDER of the steps matters: register the deferred Cancel AFTER the checkpoint call and a
